@@ -1148,6 +1148,19 @@ func (m *Machine) flatten(v Val, t types.Type) []*Term {
 	case *types.Slice:
 		sq := m.asSeq(v, u.Elem())
 		return m.seqValueLeaves(sq)
+	case *types.Pointer:
+		if _, isStruct := u.Elem().Underlying().(*types.Struct); isStruct {
+			switch p := v.(type) {
+			case *PtrV, *SymPtrV:
+				m.E.Assume("A-VALSEQ", "a struct with pointer fields that is stored in a slice (e.g. []AllianceValidator) is stored by value: the pointees are copied at the store and re-materialised as fresh objects at each load; sound as long as nothing relies on a write through one reference being seen through the slice element (holds in RebalanceBondTokenWeights: each element is loaded once)")
+				return m.flatten(m.Load(p), u.Elem())
+			}
+		}
+	}
+	if _, isStruct := t.Underlying().(*types.Struct); !isStruct {
+		if _, isSlice := t.Underlying().(*types.Slice); !isSlice {
+			return []*Term{IntLit(0)} // "#opaque"/"#ptr" leaf: contents not modelled
+		}
 	}
 	panic(unsupported("flatten " + typeKey(t)))
 }
@@ -1191,6 +1204,18 @@ func (m *Machine) unflat(leaves []*Term, t types.Type) (Val, []*Term) {
 		}
 		sq := m.seqFromValueLeaves(el, leaves[0], leaves[1:1+n])
 		return sq, leaves[1+n:]
+	case *types.Pointer:
+		if _, isStruct := u.Elem().Underlying().(*types.Struct); isStruct {
+			v, rest := m.unflat(leaves, u.Elem())
+			if m.SpecView {
+				return v, rest
+			}
+			id := m.NewCell(v)
+			return &PtrV{Cell: id, Elem: u.Elem()}, rest
+		}
+	}
+	if _, isStruct := t.Underlying().(*types.Struct); !isStruct {
+		return &OpaqueV{Tag: "stored:" + typeKey(t), Typ: t}, leaves[1:]
 	}
 	panic(unsupported("unflatten " + typeKey(t)))
 }
